@@ -442,6 +442,12 @@ ASMJIT_FAVOR_SIZE Error EmitHelper::emit_arg_move(
     src.as<Mem>().set_size(src_size);
 
   _emitter->set_inline_comment(comment);
+
+  // AVX scalar conversions are three-operand instructions (the upper part is merged from the first source).
+  if (inst_id == Inst::kIdVcvtss2sd || inst_id == Inst::kIdVcvtsd2ss) {
+    return _emitter->emit(inst_id, dst, dst, src);
+  }
+
   return _emitter->emit(inst_id, dst, src);
 }
 
